@@ -353,6 +353,13 @@ def r3_collapse(program, folder, rep):
     SUBS = ("attr", SELF, "subregions")
     IDX = _index_term(A)
     BITV = ("binop", "LShift", ("const", 1), IDX)
+    for n_, st_, base_, key_, val_ in stores(A):
+        if plain(base_) == SEL and val_[0] in ("phi", "mu"):
+            # the new selection is worked out in a local over several
+            # branches and written back once
+            raise AnalysisError("add_core: the node's selection is worked "
+                                "out in a local and stored afterwards; not "
+                                "analysed in this form")
     full = (mk_cmp("Eq", CELL, ("const", 0xffff)), True)
     notroot = (mk_cmp("Eq", LEVEL, ("const", 0)), False)
     paths = truth_paths(A)
@@ -360,9 +367,9 @@ def r3_collapse(program, folder, rep):
     for ps_ in paths:
         here = set((plain(t), p) for t, p in ps_)
         # (levels are 0..3: 'not the root' may be written level != 0,
-        # level > 0 or level >= 1)
+        # level > 0, level >= 1 or as the truth of level)
         ok = ok and full in here and (
-            notroot in here or
+            notroot in here or (LEVEL, True) in here or
             (mk_cmp("Lt", ("const", 0), LEVEL), True) in here or
             (mk_cmp("LtE", ("const", 1), LEVEL), True) in here)
     rep.check(ok, "C12-R3", inst, "a node reports 'full' "
@@ -746,6 +753,13 @@ def r3_grouping(program, rep):
     for n, st, base, key, val in stores(T):
         v = plain(val)
         if v[0] == "binop" and v[1] == "BitOr" and BIT in (v[2], v[3]):
+            k_ = plain(key)
+            if k_ != OWN and k_[0] == "item" and any(
+                    st_ == OWN for st_ in subterms(k_[2])):
+                # filed under a slot looked up by the core's own selection
+                raise AnalysisError("get_regions_and_coremasks: cores are "
+                                    "filed under a slot looked up from "
+                                    "their selection; not analysed")
             seen.append((st, plain(key) == OWN, "filed under %s" %
                          show(plain(key))[:40]))
     for b_ in T.binds:
